@@ -85,3 +85,12 @@ Print Assumptions C13_link_importer_state.
 Theorem C13_link_od_pair : od_pair_expr = expected_od_pair_expr.
 Proof. reflexivity. Qed.
 Print Assumptions C13_link_od_pair.
+
+(* which airports are known: every row of the main file and of airports-patch.csv with a non-empty IATA code,
+   whatever its type; the patch file is laid over the main file *)
+Theorem C13_link_known_airports :
+  (forall main patch code,
+     known_of_src airport_row_key airport_row_filter main patch code = Some (known_airport main patch code))
+  /\ airport_sources = expected_airport_sources /\ airport_lookup = expected_airport_lookup.
+Proof. split; [intros; reflexivity | split; reflexivity]. Qed.
+Print Assumptions C13_link_known_airports.
